@@ -660,6 +660,20 @@ func (o *c05Sink) HandleEventBatch(ctx context.Context, batch []*workerpb.Event)
 	return nil
 }
 
+// c05Runs: canonical text of a list of numbers, maximal runs of consecutive values as first+length (as the driver's showRuns).
+func c05Runs(l []int) string {
+	var parts []string
+	for i := 0; i < len(l); {
+		j := i + 1
+		for j < len(l) && l[j] == l[j-1]+1 {
+			j++
+		}
+		parts = append(parts, fmt.Sprintf("%d+%d", l[i], j-i))
+		i = j
+	}
+	return strings.Join(parts, ",")
+}
+
 func c05IDs(ids []string) string {
 	h := make([]string, len(ids))
 	for i, id := range ids {
@@ -774,8 +788,10 @@ func c05Deploy(kgc, tc int, steps []string, keys [][]byte) string {
 				return "deploy-error"
 			}
 			own, all, _, _ := op.VerifKeyLayout(nil)
+			// the key groups the operator's per-key-group timer queues load from and persist under
+			queues, _ := op.VerifTimerQueuesC05(nil, time.Unix(0, 0))
 			realOps[i] = op
-			return fmt.Sprintf("%d-%d/%d", own.Start, own.End, len(all))
+			return fmt.Sprintf("%d-%d/%d/q%s", own.Start, own.End, len(all), c05Runs(queues))
 		})
 		opParts[i] = fmt.Sprintf("%s=%d:%s:%s:%s", lib.Hex([]byte(id)), req.KeyGroupCount, c05NodeIDs(req.Operators), c05IDs(req.SourceRunnerIds), layout)
 	}
@@ -835,15 +851,28 @@ func c05Deploy(kgc, tc int, steps []string, keys [][]byte) string {
 				}
 			})
 		}
-		var ownDB, ownTimer []string
+		var ownDB, ownTimer, queues []string
 		for i, op := range realOps {
 			if op == nil {
 				continue
 			}
-			switch c05Guard(func() string {
+			r := c05Guard(func() string {
 				_, _, a, b := op.VerifOwnsC05(k, "ns", []byte{7}, time.Unix(0, 123456789))
-				return fmt.Sprintf("%v%v", a, b)
-			}) {
+				q := ""
+				if b { // the queue the owned timer is pushed to, and the key group that queue serves
+					groups, idx := op.VerifTimerQueuesC05(k, time.Unix(0, 123456789))
+					q = fmt.Sprintf(" %d:none", idx)
+					if idx >= 0 && idx < len(groups) {
+						q = fmt.Sprintf(" %d:%d", idx, groups[idx])
+					}
+				}
+				return fmt.Sprintf("%v%v%s", a, b, q)
+			})
+			f := strings.Fields(r)
+			if len(f) == 2 {
+				queues = append(queues, f[1])
+			}
+			switch f[0] {
 			case "truetrue":
 				ownDB, ownTimer = append(ownDB, opIDs[i]), append(ownTimer, opIDs[i])
 			case "truefalse":
@@ -855,7 +884,7 @@ func c05Deploy(kgc, tc int, steps []string, keys [][]byte) string {
 				ownDB = append(ownDB, "!"+opIDs[i])
 			}
 		}
-		keyParts[ki] = fmt.Sprintf("%s=%s/%s/%s", lib.Hex(k), strings.Join(tgts, ","), c05IDs(ownDB), c05IDs(ownTimer))
+		keyParts[ki] = fmt.Sprintf("%s=%s/%s/%s/%s", lib.Hex(k), strings.Join(tgts, ","), c05IDs(ownDB), c05IDs(ownTimer), strings.Join(queues, ","))
 	}
 	return fmt.Sprintf("A%s/%s|O%s|S%s|K%s", c05IDs(opIDs), c05IDs(srIDs), strings.Join(opParts, ";"), strings.Join(srParts, ";"), strings.Join(keyParts, ";"))
 }
